@@ -73,7 +73,10 @@ def cxx_ob(pid, oid, wrapper, entry, what, bounds, functions, unwind=2, unwindse
         ex = ["--max-field-sensitivity-array-size", "300"] + list(extra)   # 25x smaller formulas on 256-byte sector buffers (measured)
         if object_bits: ex += ["--object-bits", str(object_bits)]
         uw = resolve_unwind(cfile, unwindset or [], unwind)
-        c = cbmc_cmd([cfile], "F_" + entry, uw, [], [STUBS], unwind=unwind, extra=ex)
+        # LLVM hoists address computations above the branches that guard their use (legal: an out-of-range
+        # `getelementptr inbounds` is poison, not UB, until dereferenced), so CBMC's check on pointer ARITHMETIC
+        # raises alarms no sanitizer confirms; dereferences stay checked (--pointer-check, --bounds-check).
+        c = cbmc_cmd([cfile], "F_" + entry, uw, [], [STUBS], unwind=unwind, extra=ex, no_checks=("--pointer-overflow-check",))
         rt = os.path.join(ROOT, "harness", "c", "native_rt.c")
         native = dict(cc="g++", flags=["-std=c++17", "-DUSE_ZLIB", "-x", "c++"],
                       files=[os.path.join(HX, wrapper), os.path.join(HX, "vf_native.cc"), rt],
